@@ -160,9 +160,33 @@ fn note(st: &mut Stats, node: &Node, op: &Op, live: usize, last_fault: Fault) {
     st.situation(node.spec.kind, &node.spec.params, phase(node.count, node.spec.params.window(node.spec.kind), node.was_reset), opk, last_fault, node.spec.mode, 0);
 }
 
+/// nodes whose first op is `Create` are not built at the start
+fn late_nodes(sc: &Scenario) -> Vec<bool> {
+    let mut seen = vec![false; sc.nodes.len()];
+    let mut late = vec![false; sc.nodes.len()];
+    for op in &sc.ops {
+        let n = op.node();
+        if n < seen.len() && !seen[n] {
+            seen[n] = true;
+            late[n] = matches!(op, Op::Create { .. });
+        }
+        if let Op::Fork { dst, .. } = op {
+            if *dst < seen.len() {
+                seen[*dst] = true;
+            }
+        }
+    }
+    late
+}
+
+fn new_node(s: &NodeSpec) -> Node {
+    Node { sut: on(Side::Subject, || build_spec(s)), spec: *s, log: vec![], forked_at: None, count: 0, was_reset: false }
+}
+
 /// Stage A executor: one thread, the op list is the schedule.
 fn exec_single(sc: &Scenario, st: &mut Stats) -> Option<Violation> {
-    let mut nodes: Vec<Option<Node>> = sc.nodes.iter().map(|s| Some(Node { sut: build_spec(s), spec: *s, log: vec![], forked_at: None, count: 0, was_reset: false })).collect();
+    let late = late_nodes(sc);
+    let mut nodes: Vec<Option<Node>> = sc.nodes.iter().enumerate().map(|(i, s)| if late[i] { None } else { Some(new_node(s)) }).collect();
     let mut finished: Vec<(usize, Rec)> = vec![];
     let mut last_fault = Fault::Clean;
     for (i, op) in sc.ops.iter().enumerate() {
@@ -191,6 +215,15 @@ fn exec_single(sc: &Scenario, st: &mut Stats) -> Option<Violation> {
                         finished.push((*dst, old.into_rec()));
                     }
                     nodes[*dst] = Some(c);
+                }
+            }
+            Op::Create { n } => {
+                if let Some(spec) = sc.nodes.get(*n) {
+                    if let Some(old) = nodes[*n].take() {
+                        finished.push((*n, old.into_rec()));
+                    }
+                    nodes[*n] = Some(new_node(spec));
+                    st.bump("instances_created_in_mid_schedule");
                 }
             }
             Op::Drop { n } => {
@@ -261,6 +294,7 @@ enum Cmd {
     Exec(usize, Op),
     Take(usize),
     Put(usize, Node),
+    Create(usize, NodeSpec),
     Fork(usize, usize, bool),
     Finish,
 }
@@ -321,6 +355,11 @@ fn exec_threads(sc: &Scenario, st: &mut Stats) -> Option<Violation> {
                         mine.push((id, n));
                         (Reply::None, false)
                     }
+                    Some(Cmd::Create(id, spec)) => {
+                        // new() runs on this worker thread
+                        mine.push((id, new_node(&spec)));
+                        (Reply::None, false)
+                    }
                     Some(Cmd::Fork(src, dst, true)) if src != dst && mine.iter().any(|(i, _)| *i == src) && mine.iter().any(|(i, _)| *i == dst) => {
                         let dp = mine.iter().position(|(i, _)| *i == dst).unwrap();
                         let (_, mut d) = mine.remove(dp);
@@ -362,9 +401,14 @@ fn exec_threads(sc: &Scenario, st: &mut Stats) -> Option<Violation> {
     };
     // initial placement: node i on worker i mod k
     let mut owner: Vec<Option<usize>> = vec![];
+    let late = late_nodes(sc);
     for (i, s) in sc.nodes.iter().enumerate() {
+        if late[i] {
+            owner.push(None);
+            continue;
+        }
         let w = i % k;
-        call(w, Cmd::Put(i, Node { sut: build_spec(s), spec: *s, log: vec![], forked_at: None, count: 0, was_reset: false }));
+        call(w, Cmd::Create(i, *s));
         owner.push(Some(w));
     }
     let mut finished: Vec<(usize, Rec)> = vec![];
@@ -407,6 +451,19 @@ fn exec_threads(sc: &Scenario, st: &mut Stats) -> Option<Violation> {
                         finished.push((*n, old.into_rec()));
                     }
                     owner[*n] = None;
+                }
+            }
+            Op::Create { n } => {
+                if let Some(spec) = sc.nodes.get(*n) {
+                    if let Some(Some(w)) = owner.get(*n).cloned() {
+                        if let Reply::Node(Some(old)) = call(w, Cmd::Take(*n)) {
+                            finished.push((*n, old.into_rec()));
+                        }
+                    }
+                    let w = (*n + i) % k;
+                    call(w, Cmd::Create(*n, *spec));
+                    owner[*n] = Some(w);
+                    st.bump("instances_created_in_mid_schedule");
                 }
             }
             Op::Migrate { n, w } => {
@@ -551,13 +608,21 @@ pub fn generate(rng: &mut Rng, tier: Tier, workers: usize) -> Scenario {
     }
     let n_ops = n_ops + ops.len();
     let k0 = nodes.len();
-    let mut live: Vec<usize> = (0..k0).collect();
+    // some instances are born in mid-schedule (Create op) rather than at the start
+    let mut unborn: Vec<usize> = (1..k0).filter(|_| rng.chance(0.3)).collect();
+    let mut live: Vec<usize> = (0..k0).filter(|i| !unborn.contains(i)).collect();
     let mut next_id = k0;
     let mut buf = vec![];
     let mut last: Option<(Input, Fault)> = None;
     while ops.len() < n_ops {
         if live.is_empty() {
             break;
+        }
+        if !unborn.is_empty() && rng.chance(0.08) {
+            let b = unborn.remove(rng.below(unborn.len() as u64) as usize);
+            ops.push(Op::Create { n: b });
+            live.push(b);
+            continue;
         }
         let n = *rng.pick(&live);
         // deep runs are almost only feeds: a reset or a drop every few ticks would never let the ring wrap
@@ -814,6 +879,27 @@ pub fn run(tier: Tier) -> i32 {
     if stages_owned.iter().all(|s| s.found.is_none()) {
         stages_owned.push(run_stage_seq("stageB", b_runs, &mut total, tier));
     }
+    // stage E: a sample of stage-A scenarios, EACH in its own freshly started process: state that is sticky
+    // for a whole process or thread (FPU control word, lazily initialised globals) is pristine there, so the
+    // first creation of an instance in mid-schedule can still make a difference
+    if stages_owned.iter().all(|s| s.found.is_none()) && !gen::fast() {
+        let e_runs = gen::scaled(match tier {
+            Tier::Quick => 600,
+            Tier::Thorough => 12_000,
+        });
+        let herm_exec = |sc: &Scenario, st: &mut Stats| -> Option<Violation> {
+            st.ticks += sc.ops.iter().filter(|o| matches!(o, Op::Feed { .. })).count() as u64;
+            st.bump("scenarios_run_in_their_own_process");
+            match hermetic_exec(PROP, sc) {
+                Ok(v) => v,
+                Err(e) => {
+                    eprintln!("harness error: hermetic child failed: {}", e);
+                    std::process::exit(2);
+                }
+            }
+        };
+        stages_owned.push(run_stage_opt("stageE-own-process", e_runs, wall_cap, &mut total, &|i| generate(&mut Rng::new(run_seed(c.seed, PROP, "stageE", i)), tier, 0), &herm_exec, &[], 0, true));
+    }
     let stages: Vec<&StageOut> = stages_owned.iter().collect();
     let mut violations = conclude(&total, &stages);
     // stage D: two separately started processes (different PID, ASLR, start time, worker count)
@@ -860,7 +946,7 @@ pub fn run(tier: Tier) -> i32 {
         &total,
         report::EvidenceMeta {
             level: "exploration",
-            rule: "one evaluation = one multi-instance scenario: 2..8 live instances (several of the same kind and parameters on purpose), each with its own or a shared fault-laden stream, with clone-at-arbitrary-point, drop, reset, format and (stage B) migrate-to-another-thread operations interleaved by the seeded scheduler; every output is logged and afterwards every instance is replayed solo from new() (a clone: parent's log up to the fork, then its own) and must match bit for bit, twice. corpus-merges enumerates all 70 merges of two 4-op sequences over (two unrelated same-parameter instances) and (original + clone taken after 0..3 ticks) for every indicator, periods 1..3. Stage B runs the same scenarios on 2..16 real OS threads released one operation at a time by a turn token; stage D runs a slice in two separately started processes (1 and N workers) and compares output digests; stage C runs concurrent threads under Miri's seeded scheduler. distinct_nontrivial counts distinct (indicator, period bucket, window phase, op kind, number of live instances, is-clone, single/multi-threaded and thread count, last fault, input mode) tuples at which an operation was applied in a run with more than one instance.",
+            rule: "one evaluation = one multi-instance scenario: 2..8 live instances (several of the same kind and parameters on purpose), each with its own or a shared fault-laden stream, with clone-at-arbitrary-point, drop, reset, format and (stage B) migrate-to-another-thread operations interleaved by the seeded scheduler; every output is logged and afterwards every instance is replayed solo from new() (a clone: parent's log up to the fork, then its own) and must match bit for bit, twice. corpus-merges enumerates all 70 merges of two 4-op sequences over (two unrelated same-parameter instances) and (original + clone taken after 0..3 ticks) for every indicator, periods 1..3. Stage E runs a sample of scenarios each in its own freshly started process. Stage B runs the same scenarios on 2..16 real OS threads released one operation at a time by a turn token; stage D runs a slice in two separately started processes (1 and N workers) and compares output digests; stage C runs concurrent threads under Miri's seeded scheduler. distinct_nontrivial counts distinct (indicator, period bucket, window phase, op kind, number of live instances, is-clone, single/multi-threaded and thread count, last fault, input mode) tuples at which an operation was applied in a run with more than one instance.",
             assumptions: vec![
                 "stages A/B/D see only interference that persists across operation boundaries or across processes; pre-emption inside next() is explored only as far as Miri's scheduler does on small scenarios".into(),
                 "an uncontrolled multi-thread stress run is deliberately not part of the check: its failures would not replay".into(),
